@@ -24,6 +24,44 @@ SIMPLIFY = {"o": lambda v: "pass" if not v.startswith("<") else None, "bg": "nul
 WATCHDOG_S = {"quick": 900, "thorough": 4 * 3600}
 
 
+def run_with_late_tags(res, program):
+    """behave driven as a library: the features are parsed, a tagging pass LOOKS at every element's effective tags, then
+    adds the last tag of some plain scenarios / rules through the public `.tags` list (a quarantine list, tags from a
+    ticket system), then the model is run: the selection follows the tags the elements have when they run."""
+    import copy
+    from behave.model import Rule
+    from behave.model import Tag
+    from ..harness import run_program
+    prog = runcheck.resolve_faults(program)
+    ref = refmodel.simulate(prog)
+    late = {}       # (kind, name) -> tag
+    stripped = copy.deepcopy(prog)
+    for f in stripped["features"]:
+        for it in f["items"]:
+            for el in [it] + (it["items"] if it["k"] == "r" else []):
+                if el["k"] in ("s", "r") and el["tags"] and (len(el["name"]) + len(el["tags"])) % 2 == 0:
+                    late[(el["k"], el["name"])] = el["tags"].pop()
+
+    def setup(runner, plan):
+        elements = []
+        for feature in runner.features:
+            feature.effective_tags      # noqa: the tagging pass looks first ...
+            for item in feature.run_items:
+                elements.append(("r" if isinstance(item, Rule) else "s", item))
+                if isinstance(item, Rule):
+                    elements.extend(("s", sub) for sub in item.run_items)
+        for kind, el in elements:
+            el.effective_tags           # noqa
+        for kind, el in elements:
+            tag = late.get((kind, el.name))
+            if tag is not None and not hasattr(el, "examples"):
+                el.tags.append(Tag(tag, el.line))       # ... and adds tags afterwards
+    run = run_program(stripped, setup=setup)
+    if late:
+        res.label("tags-added-to-the-parsed-model-before-the-run")
+    return prog, ref, run
+
+
 def check(case):
     res = CaseResult()
     if any(k == "skip_feature" for _i, k in case["program"].get("hook_faults") or []):
@@ -36,7 +74,10 @@ def check(case):
             # own to keep: outside the statement
             res.label("excluded:stepless-scenario-with-late-skip")
             return res
-    prog, ref, run = runcheck.run_and_ref(case["program"])
+    if case.get("late_tags"):
+        prog, ref, run = run_with_late_tags(res, case["program"])
+    else:
+        prog, ref, run = runcheck.run_and_ref(case["program"])
     if run.escaped is not None:
         res.fail("C09.escape", "exception escaped run(): %r" % (run.escaped,))
         return res
@@ -191,6 +232,8 @@ def case_st(draw):
             prog["hook_faults"] = [[draw(st.integers(0, 10000)), "skip_feature"]]
         else:
             prog["hook_faults_named"] = [draw(st.sampled_from(conts)) + ["skip"]]
+    elif draw(st.integers(0, 4)) == 0:
+        return {"program": prog, "late_tags": True}
     return {"program": prog}
 
 
@@ -202,7 +245,7 @@ def explore(rec):
 def required_labels(tier):
     return ["inheritance-matters", "dialect:v1", "dialect:v2", "dry-run", "no-skipped", "mixed-selection",
             "parametrised-tag", "wildcard", "negation", "excluded-at-run-time:feature", "excluded-at-run-time:rule",
-            "excluded-at-run-time:with-outline"]
+            "excluded-at-run-time:with-outline", "tags-added-to-the-parsed-model-before-the-run"]
 
 
 KNOWN_PREDICATES = {}
